@@ -277,7 +277,21 @@ func c15RunAll(ph *c15Phase, r *c15Rec, budget time.Duration, fs []func()) {
 	ph.MaxCallMs = atomic.LoadInt64(&r.maxNs) / 1e6
 }
 
-func c15Quiesce(m *resmgr, ph *c15Phase, r *c15Rec) {
+func c15Quiesce(m *resmgr, ph *c15Phase, r *c15Rec, budget time.Duration) {
+	done := make(chan struct{})
+	go func() { defer close(done); c15QuiesceLocked(m, ph, r) }()
+	select {
+	case <-done:
+	case <-time.After(budget):
+		r.Lock()
+		r.dead = true
+		r.Unlock()
+		ph.Completed = false
+		ph.Stuck = "quiescence check did not complete"
+	}
+}
+
+func c15QuiesceLocked(m *resmgr, ph *c15Phase, r *c15Rec) {
 	ph.PodsLeft = len(m.cache.GetPods())
 	ph.ContainersLeft = len(m.cache.GetContainers())
 	before := 0
@@ -370,11 +384,13 @@ func TestVerifC15(t *testing.T) {
 		c15RunAll(ph, r, budget, fs)
 		atomic.StoreInt32(&stop, 1)
 		if ph.Completed {
-			c15Quiesce(m, ph, r)
+			c15Quiesce(m, ph, r, budget)
 		}
-		if b := instmetrics.Block(); b != nil {
-			ph.Gatherer = true
-			b.Done()
+		if ph.Completed {
+			if b := instmetrics.Block(); b != nil {
+				ph.Gatherer = true
+				b.Done()
+			}
 		}
 		results = append(results, ph)
 		flush(false)
@@ -391,22 +407,25 @@ func TestVerifC15(t *testing.T) {
 		ctx := context.Background()
 		var pods []*api.PodSandbox
 		var ctrs []*api.Container
-		for i := 0; i < 3; i++ {
-			id := fmt.Sprintf("s%d", i)
-			pod := c15Pod(id, "burstable")
-			pods = append(pods, pod)
-			r.call("RunPodSandbox", func() error { return m.nri.RunPodSandbox(ctx, pod) })
-			c := c15Ctr(id+"-c0", id, 300, false)
-			ctrs = append(ctrs, c)
-			r.call("CreateContainer", func() error { _, _, e := m.nri.CreateContainer(ctx, pod, c); return e })
-			r.call("StartContainer", func() error { return m.nri.StartContainer(ctx, pod, c) })
-			c.State = api.ContainerState_CONTAINER_RUNNING
+		setup := func() {
+			for i := 0; i < 3; i++ {
+				id := fmt.Sprintf("s%d", i)
+				pod := c15Pod(id, "burstable")
+				pods = append(pods, pod)
+				r.call("RunPodSandbox", func() error { return m.nri.RunPodSandbox(ctx, pod) })
+				c := c15Ctr(id+"-c0", id, 300, false)
+				ctrs = append(ctrs, c)
+				r.call("CreateContainer", func() error { _, _, e := m.nri.CreateContainer(ctx, pod, c); return e })
+				r.call("StartContainer", func() error { return m.nri.StartContainer(ctx, pod, c) })
+				c.State = api.ContainerState_CONTAINER_RUNNING
+			}
+			r.call("reconfigure", func() error { return m.reconfigure(c15Config(50)) })
+			if b := instmetrics.Block(); b != nil {
+				ph.Gatherer = true
+				b.Done()
+			}
 		}
-		r.call("reconfigure", func() error { return m.reconfigure(c15Config(50)) })
-		if b := instmetrics.Block(); b != nil {
-			ph.Gatherer = true
-			b.Done()
-		}
+		c15RunAll(ph, r, budget, []func(){setup})
 		var fs []func()
 		fs = append(fs, func() {
 			for i := 0; i < 2*iters; i++ {
@@ -427,10 +446,14 @@ func TestVerifC15(t *testing.T) {
 				r.call("reconfigure", func() error { return m.reconfigure(cfg) })
 			}
 		})
-		c15RunAll(ph, r, budget, fs)
+		if ph.Completed {
+			ph.Completed = false
+			c15RunAll(ph, r, budget, fs)
+		}
 		results = append(results, ph)
 		flush(false)
 	}
+
 	// ---- seq: one goroutine, one full lifecycle (the fetch goroutine is the only concurrency)
 	if want["seq"] {
 		m := c15New(t, root, "seq")
@@ -443,7 +466,7 @@ func TestVerifC15(t *testing.T) {
 			}
 		}})
 		if ph.Completed {
-			c15Quiesce(m, ph, r)
+			c15Quiesce(m, ph, r, budget)
 		}
 		results = append(results, ph)
 		flush(false)
@@ -516,7 +539,7 @@ func TestVerifC15(t *testing.T) {
 		}
 		c15RunAll(ph, r, budget, fs)
 		if ph.Completed {
-			c15Quiesce(m, ph, r)
+			c15Quiesce(m, ph, r, budget)
 		}
 		results = append(results, ph)
 		flush(false)
